@@ -21,6 +21,8 @@ def classify(events, i, why):
             why["with"], why["fan"], why["calls"])
     if cls == "lifecycle":
         return "lifecycle:%s" % why["final"], "callback stream is not in the documented lifecycle order (automaton ends in %s after %d callbacks)" % (why["final"], why["n"])
+    if cls == "oppos":
+        return "snapshot-position:%s" % why["call"], "the snapshot handed to %s (callback %d) names a different instruction than the step it belongs to (BeforeStep position)" % (why["call"], why["at"])
     if cls == "stack":
         return "snapshot-inconsistent:%s" % c05.opname(why["op"]), "consecutive AfterStep snapshots are not related by the instruction executed between them (%s)" % c05.opname(why["op"])
     if cls == "extra-step":
@@ -44,7 +46,8 @@ def run(ctx):
     ctx.cov["rule"] = ("each program (node vectors, TLC families two2/flow4/unary, random, P2SH-shaped, mutated vectors) is executed three times: "
                        "no debugger, recording debugger, scribbling debugger (overwrites every byte of every stack slice and the cond stack in "
                        "each snapshot); Trace_VM requires equal verdict and error text, identical snapshots and callback streams, the callback "
-                       "stream accepted by DebugLifecycle.tla consistently with the verdict, and consecutive snapshots related by one ScriptVM step")
+                       "stream accepted by DebugLifecycle.tla consistently with the verdict, consecutive snapshots related by one ScriptVM step, and the snapshots of a step's BeforeExecuteOpcode / AfterExecuteOpcode "
+                       "callbacks naming the same (script, opcode) position as its BeforeStep (DebugLifecycle!OpPositions)")
     ctx.assumptions += ["error equality is compared on the error text returned by Execute"]
     cases = c05.cases_from_vectors(ctx, ctx.pick(500, None))
     save = ctx.cov.get("tlc_generated_cases")
